@@ -367,8 +367,8 @@ struct Exec {
                 if (on(CK_HEAP)) {
                     if (blk && blk->live) { violate("cleanup-did-not-release", strf("%s left block #%d allocated by the matching init live", op_brief(plan, o).c_str(), blk->id)); return; }
                 }
-                ObjHandleView *v = (ObjHandleView *)st.h;
-                if (on(CK_HEAP) && v->ctx != nullptr) { violate("cleanup-left-pointer", strf("%s left a dangling context pointer in the object", op_brief(plan, o).c_str())); return; }
+                // (Whether a stale pointer value is left in the handle is not checked: the property only demands that it is
+                //  never used again, and any use or second free of it faults in SimHeap.)
             }
             break;
         case OP_ZERO: st.life = L_ZEROED; st.keyed = false; break;
@@ -537,6 +537,11 @@ struct Exec {
             unsigned batch = is_ctr(k) ? ctr_batch_bytes(k, backend_before) : 0;
             unsigned offc = batch ? (ksoff_before >= bs ? 0 : 1) : 0;
             unsigned szc = o.size == 0 ? 0 : o.size < bs ? 1 : o.size == bs ? 2 : o.size % bs ? 3 : 4;
+            if (o.code == OP_PENC || o.code == OP_PDEC) szc = 8 + std::min<unsigned>(o.size / bs, 63);                 // parallel: the block count itself
+            if (o.code == OP_ENC && batch) szc |= ((st.stream_pos % batch) == 0 ? 16u : 0u) | ((o.flags & F_INPLACE) ? 32u : 0u);
+            if (o.code == OP_SWAP) szc = 64 + (unsigned)(st.nswaps & 3);
+            if (o.code == OP_SETTWEAK || o.code == OP_SETCTR) szc = 128 + ((o.flags & F_NULLA) ? 0u : o.size == 0 ? 1u : o.size < bs ? 2u : o.size == bs ? 3u : 4u);
+            if (o.code == OP_SETKEY || o.code == OP_SETTKEY) szc = 160 + (o.size < bs ? 0u : o.size > 3 * bs ? 7u : (o.size % bs == 0 ? o.size / bs : 3 + o.size / bs));
             uint64_t h = hash_comb(hash_comb(hash_comb((uint64_t)k << 8 | o.code, (uint64_t)life_before << 8 | keyed_before << 4 | (backend_before & 15)), (uint64_t)(exp & 3) << 16 | offc << 8 | szc), (uint64_t)(o.flags & 15) << 8 | (o.failalloc ? 1 : 0) | (o.code == OP_INIT ? (uint64_t)(o.cpu + 1) << 16 | (uint64_t)o.prefill << 12 : 0));
             g_cover.add(h, true);
         }
